@@ -15,7 +15,8 @@ import vlib
 NAMES = ["a", "b", "key", "1", "2", "3", "4", " a ", " 2 ", "new", "x y", "5", "01"]
 VALS = ["v", "", " ", "a|b", "a=b", "x\n", "\n y ", "{{t|u}}", "[[l|m]]", "{{t|u}}|w", "a=b|c=d", "  pad  ", "q=", "|", "=",
         "{{x}}={{y}}", "[[a|b]]=c", "<b>k=v</b>|z", "&#124;", "w\n\n", "http://example.com/?a=b", "see [http://x.org/?q=1 t]", "==h==", "\n== t ==\n",
-        "[//a.b/c?d=e]", "x http://e.org/?a=b&c=d y"]
+        "[//a.b/c?d=e]", "x http://e.org/?a=b&c=d y", "==a|b==", "\n== a|b ==\n", "http://x.com/?a|b", "[http://x.com/a|b c|d]", "x [http://x.com/a|b c|d] y|z",
+        "\n== [http://q/a|b c] ==\n"]
 TPLS = ["{{t}}", "{{t|a}}", "{{t|a|b}}", "{{t|a=1|b=2}}", "{{t|x|k=v|y}}", "{{t| a = 1 | b = 2 }}", "{{t|\n a = 1\n| b = 2\n}}",
         "{{t|1=a|2=b}}", "{{t|a|2=b|c}}", "{{t|a=1|a=2}}", "{{t||}}", "{{t|a|b|c|d}}", "{{t|2=x|y}}", "{{t|a|a=z|b}}", "{{t|1=p|q}}",
         "{{t|b|1=dup}}", "{{t| 1 = s|u}}"]
@@ -42,6 +43,11 @@ def reparse(t):
     if len(c.nodes) != 1 or not isinstance(c.nodes[0], Template):
         return None
     return c.nodes[0]
+
+
+def norm_ws(v):
+    import mwparserfromhell as M
+    return M.parse(str(v)).strip_code(normalize=True, collapse=False)
 
 
 def norm(v):
@@ -104,8 +110,12 @@ def one_history(seed):
             ops += [0, name_id(name, table), newv]
             if not t.has(name):
                 fail = "has() is false after add"
-            elif norm(t.get(name).value) != norm(val) and str(t.get(name).value).strip() != val.strip():
+            elif (norm(t.get(name).value) != norm(val) and str(t.get(name).value).strip() != val.strip()
+                  and str(t.get(name).value).replace("&#124;", "|").replace("&#61;", "=").strip() != val.strip()):
                 fail = "get() finds %r after adding %r" % (norm(t.get(name).value), norm(val))
+            elif not existed and not par.showkey and norm_ws(par.value) != norm_ws(val) and str(par.value) != val:
+                # white space is part of a positional value (only named parameters are stripped by MediaWiki)
+                fail = "a new parameter with a hidden key got the value %r instead of %r" % (str(par.value), val)
         else:
             name, kf = rng.choice(NAMES), rng.random() < 0.4
             hist.append(("remove", name, kf))
@@ -190,6 +200,14 @@ def run(tier, seed):
                 if dis <= 3:
                     c.broken.append({"file": "correspondence Template.add/remove", "line": 0, "statement": "step (model tie)",
                                      "error": "history %r: model %r vs implementation %r" % (hist, mm, rec)})
+    import hidekey
+    hk = vlib.robust_map(hidekey.work, [0], chunk=1, timeout=240)[0]
+    if isinstance(hk, tuple) and hk and hk[0] in ("CRASH", "TIMEOUT", "PYEXC"):
+        c.fail("hide-key probe %s: %s" % (hk[0], str(hk[1])[:300]), {"probe": "hidekey", "outcome": hk[0]})
+    else:
+        c.cov["evaluations"] += hk[1]
+        for msg in hk[0][:20]:
+            c.fail(msg, {"probe": "hidekey", "what": msg})
     c.cov["distinct_nontrivial"] = len(nontrivial)
     c.cov["rule"] = ("17 starting templates (positional / named / duplicate / empty parameters, three whitespace conventions) x histories of 1-6 "
                      "add/remove calls, names from {new, existing, positional numbers, padded}, values over '|', '=', spaces, newlines, nested "
@@ -204,6 +222,11 @@ def run(tier, seed):
 
 
 def replay(data):
+    if data["data"].get("probe") == "hidekey":
+        import hidekey
+        f, _n = hidekey.probe()
+        print("\n".join(f[:20]))
+        return 1 if f else 0
     r = one_history(data["data"]["seed"])
     print(r[2], r[3])
     return 1 if r[3] else 0
